@@ -38,7 +38,9 @@ func init() {
 func c01Rules(tier string) []Rule {
 	// resource fit on an in-flight node is judged against StateNode.Allocatable()
 	rules := append(c01RulesBase(tier), allocatableViewRules("C01")...)
-	return append(rules, toleratesRules("C01")...)
+	rules = append(rules, toleratesRules("C01")...)
+	rules = append(rules, reservationCommitRules("C01")...)
+	return append(rules, hostPortRules("C01")...)
 }
 
 func c01RulesBase(tier string) []Rule {
